@@ -97,8 +97,16 @@ def ground_antenna(rng):
 
 
 def solve(ant, media, src_seed, near=False):
+    from mininec.mininec import Impedance_Load
     m = antgen.build(ant, media=media)
-    antgen.pick_sources(random.Random(src_seed), m)
+    r = random.Random(src_seed)
+    antgen.pick_sources(r, m)
+    # loads (also on grounded pulses): the ground constants must not reach the matrix through them either
+    if r.random() < 0.7:
+        gp = [p.idx for p in m.pulses if p.ground.any()]
+        for k in range(r.randint(1, 2)):
+            ld = Impedance_Load(complex(10 ** r.uniform(0, 3), r.choice([0.0, 50.0, -200.0])))
+            m.register_load(ld, r.choice(gp) if gp and r.random() < 0.6 else r.randrange(len(m.pulses)))
     m.compute()
     nf = None
     if near:
